@@ -108,6 +108,21 @@ META["rule"] += (
 META["rule"] += (
     " " + 'Added after the eighth round: node weights of ClimateNetwork and CoupledClimateNetwork (two grids) built on the same coordinates.')
 
+META["rule"] += (
+    " " + 'Added in the continuation session: the grid\'s own account of its geometry (node_coordinates, grid(), boundaries() == the coordinates and their extent); geometric_distance_distribution puts every ordered pair of distinct nodes into the bin of its closed-form distance (margin 4*2^-17 of the largest distance at bin edges); area-weighted frequency distributions (geographical_distribution and the (in/out) AWC distributions, plain and cumulative, 1..8 bins, sequences with ties): every partial sum of the histogram is the cos-lat share of the nodes with value <= some occurring value (2e-6), total 1, smallest values in the first bin - independent of the binning convention; weight type None (unit weights) from the constructor, over hand-assigned weights and before a geographic type; node weights and recorded weight type of data-derived climate networks (Tsonis, Havlin, Hilbert, Spearman; types None / surface / irrigation) after the constructor, after the setter that regenerates the network and after set_threshold.')
+for _t, _f in (("quick", {"position_queries": 1500, "boundary_queries": 500,
+                          "distance_distributions": 400,
+                          "area_weighted_distributions": 2000,
+                          "unit_weight_type_sequences": 400,
+                          "regenerated_weights_checked": 200}),
+               ("thorough", {"position_queries": 6000,
+                             "boundary_queries": 2000,
+                             "distance_distributions": 1500,
+                             "area_weighted_distributions": 12000,
+                             "unit_weight_type_sequences": 2500,
+                             "regenerated_weights_checked": 1200})):
+    META["floors"][_t].update(_f)
+
 STYLES = ["generic", "pole", "antimeridian", "coincident", "antipodal",
           "regular", "mixed"]
 
